@@ -4,6 +4,7 @@
 //! Every oracle prints one JSON object on stdout.
 mod refimpl;
 mod oracles;
+mod storm_mod;
 
 fn main() {
     let args: Vec<String> = std::env::args().collect();
